@@ -322,6 +322,8 @@ impl<
     pub fn clear(&self) {
         // TODO: item call back
         self.shards.iter().for_each(|shard| shard.write().clear());
+        // every entry is gone: so is its place in the expiration buckets
+        self.em.clear();
     }
 
     #[cfg(transparencies_stretto_verif)]
